@@ -18,7 +18,9 @@ RULE = ('Generated client generations: each opens 1-3 transports and runs a '
         'that have already gone, an emit with callback to a room of two '
         'whose first send is suspended while the other member\'s transport '
         'ends, binary events '
-        'whose attachments never all arrive, malformed frames, namespace '
+        'whose attachments never all arrive, frames of the dying transport '
+        '(CONNECT, events, binary headers, DISCONNECT) dispatched while its '
+        'disconnect handler is suspended, malformed frames, namespace '
         'disconnects) and then ends every transport by a generated cause; '
         'fault plan: the k-th invocation of a connect / event / disconnect '
         'handler raises. The same generation is repeated 2n times. Oracles: '
@@ -90,6 +92,18 @@ def strategy(tier):
         # ends, then the send completes
         st.fixed_dictionaries({'op': st.just('group_cb_death'), 'c': ci,
                                'd': ci}),
+        # asyncio: the transport is lost, the application's disconnect
+        # handler is suspended, and frames that the dying transport had
+        # still sent are dispatched meanwhile
+        st.fixed_dictionaries({'op': st.just('lose_mid'), 't': tt,
+                               'frames': st.lists(st.sampled_from([
+                                   '0', '0/a,', '2["a",1]', '21["a"]',
+                                   '1', '1/a,', b'late attachment',
+                                   '51-["a",{"_placeholder":true,"num":0}]',
+                                   '52-/a,["a",{"_placeholder":true,"num":0},'
+                                   '{"_placeholder":true,"num":1}]',
+                                   '61-/a,3[{"_placeholder":true,"num":0}]']),
+                                   min_size=1, max_size=3)}),
         # the application acts on a client of this generation that has
         # already gone (a handler that was suspended meanwhile)
         st.fixed_dictionaries({'op': st.just('late'), 'c': ci,
@@ -143,6 +157,9 @@ def _mk_world(case):
 
         if case['aio']:
             async def on_disconnect(sid, reason, ns=ns):
+                g = st_.get('gate')
+                if g is not None and not g.done():
+                    await g
                 if case.get('disc_closes_own'):
                     await sio.close_room(sid, namespace=ns)
                 hit('disconnect')
@@ -218,6 +235,44 @@ def _generation(case, w, st_):
             if w.t_alive[t]:
                 w.close_then(t, op['frames'])
                 flags.add('frames_after_close')
+            continue
+        if k == 'lose_mid':
+            if not w.t_alive[t]:
+                continue
+            if not case['aio'] or not any(
+                    c2['alive'] and c2['t'] == t for c2 in w.clients):
+                w.lose(t, reasons[0])
+                continue
+            loop = w.h.loop
+            eio_sid = w.t[t]
+            sock = w.h.eio.sockets[eio_sid]
+            st_['gate'] = loop.create_future()
+            task = loop.spawn(sock.close(wait=False, abort=True,
+                                         reason=reasons[0]))
+            loop.run_until_idle()
+            parked = not task.done()
+            P = w.h.eio_packet
+            for f in op['frames']:
+                ft = loop.spawn(sock.receive(P.Packet(P.MESSAGE, f)))
+                loop.run_until_idle()
+                if ft.done():
+                    ft.exception()      # engine.io would contain it
+            st_['gate'].set_result(None)
+            loop.run_until_idle()
+            st_['gate'] = None
+            if not task.done():
+                raise Violation('transport-loss-never-finishes', '')
+            task.exception()
+            w.h.swallowed[:] = []
+            w.t_alive[t] = False
+            for c2 in w.clients:
+                if c2['t'] == t:
+                    c2['alive'] = False
+            if sock.closed and eio_sid in w.h.eio.sockets:
+                del w.h.eio.sockets[eio_sid]
+            if parked:
+                flags.add('frames_during_suspended_disconnect')
+            w.h.settle()
             continue
         if k == 'late':
             gone = [i for i in range(c0, len(w.clients))
